@@ -425,7 +425,10 @@ def run(ctx, only_cases=None):
         "generated_file_changed": gen_changed,
     })
     ctx.assumptions += [
-        "each SessionManager/ClientRegistry method is one atomic step (CloseConnection spans three lock sections; lookups interleaved inside it are not modelled)",
+        "interleavings: handleHandshake and CloseConnection are cut into their lock sections (Model/RegistryMicro.v); the harness runs another "
+        "operation to completion before/after every WritePacket/Close that is not made under the registry mutex; Kick and Sweep are single "
+        "steps in the section-level theorem (their I/O points are covered by the harness and step_inj); finer preemption inside one lock section is impossible",
+        "section-level theorem: a packet is dispatched only on a transport the server has not closed; packets of one connection are handled by one goroutine",
         "data races on the unlocked ControlConnection fields (ClientID/Authenticated written by the auth handler) are not modelled",
         "the auth handler authenticates only positive client ids (ServerAuthHandler: generated id or req.ClientID>0); the harness uses a scripted AuthHandler",
         "raw Register/UpdateAuth are applied only to open transports and Register only to a session connection without a control record (the server's call sites)",
